@@ -8,7 +8,7 @@ from . import core
 from .core import cq_bool, cq_list, cq_nat
 
 THEOREMS = ["C02_safe_partial", "C02_head_well_moded", "C02_refuted_deferred", "C02_head_on_witness",
-            "C02_refuted_corrupt", "C02_refuted_split_lookup", "C02_mutex", "C02_no_deadlock", "C02_m1_rejected", "C02_lock_mutex", "C02_busy_only_on_upgrade", "C02_example"]
+            "C02_refuted_corrupt", "C02_refuted_split_lookup", "C02_timeout_guard", "C02_mutex", "C02_no_deadlock", "C02_m1_rejected", "C02_lock_mutex", "C02_busy_only_on_upgrade", "C02_example"]
 
 KNOWN_TAG = "corrupt-db-concurrent-recovery"
 
@@ -27,6 +27,7 @@ REGS = {"table_exists": 0, "metadata_table_exists": 1, "columns": 2, "table_corr
 # python test -> (Coq cond, polarity): polarity False swaps the branches
 CONDS = {
     "not hasattr(parse, 'initialized_dbs') or full_db_path not in parse.initialized_dbs": ("CInit", True),
+    "full_db_path not in parse.initialized_dbs": ("CInit", True),
     "table_exists": ("CReg 0", True),
     "metadata_table_exists": ("CReg 1", True),
     "columns != expected_columns": ("CReg 2", False),
@@ -95,6 +96,8 @@ class Probe:
         self.tree = pyast.parse(src)
         self.funcs = {n.name: n for n in self.tree.body if isinstance(n, pyast.FunctionDef)}
         self.connect_kw = []
+        self.busy_guard = None          # does the integrity handler re-raise a busy error before os.remove?
+        self.mark_ok = None             # is the database marked initialised only after the start-up statements?
 
     def events_in(self, node):
         for n in pyast.walk(node):
@@ -151,6 +154,8 @@ class Probe:
                 if test not in CONDS:
                     raise ProbeError("unknown branch condition around cache statements: %s" % test[:80])
                 c, pol = CONDS[test]
+                if c == "CInit":
+                    self.mark_ok = self.check_mark(st.body)
                 th, el = self.block(st.body), self.block(st.orelse)
                 if not pol:
                     th, el = el, th
@@ -164,6 +169,7 @@ class Probe:
                         raise ProbeError("try/except sqlite3.* around something else than the integrity check")
                     if names != ["sqlite3.DatabaseError"] or len(st.handlers) != 1 or st.orelse or st.finalbody:
                         raise ProbeError("integrity check handler catches %s" % names)
+                    self.busy_guard = self.check_guard(st.handlers[0])
                     out.append("IS (SIntegrity true)")
                     out.append("IIf CIFail %s []" % cq_list(self.block(st.handlers[0].body)))
                 else:
@@ -221,6 +227,41 @@ class Probe:
                         raise ProbeError("assignment to %s" % st.targets[0].id)
         return out
 
+    def check_mark(self, body):
+        """parse.initialized_dbs may be extended / assigned only after the last cache statement of the
+        start-up block (otherwise another thread of the process skips checks that have not been done)"""
+        last_event = -1
+        marks = []
+        for i, st in enumerate(body):
+            if self.events_in(st):
+                last_event = i
+            if "initialized_dbs" in pyast.unparse(st) and any(
+                    isinstance(n, (pyast.Assign, pyast.AugAssign)) or
+                    (isinstance(n, pyast.Call) and isinstance(n.func, pyast.Attribute) and n.func.attr in ("add", "update"))
+                    for n in pyast.walk(st)):
+                marks.append(i)
+        return bool(marks) and min(marks) > last_event
+
+    def check_guard(self, handler):
+        """ONLY a guard that really tests for the busy condition counts: `if <test>: raise` before os.remove where
+        <test> is, up to `isinstance(e, sqlite3.OperationalError) and`, "'locked' in str(e)" or
+        "e.sqlite_errorcode == sqlite3.SQLITE_BUSY" (SQLITE_LOCKED is a different condition)"""
+        name = handler.name
+        for st in handler.body:
+            if any(isinstance(n, pyast.Call) and isinstance(n.func, pyast.Attribute) and n.func.attr in ("remove", "unlink")
+                   for n in pyast.walk(st)):
+                return False
+            if isinstance(st, pyast.If) and len(st.body) == 1 and isinstance(st.body[0], pyast.Raise) \
+                    and st.body[0].exc is None and name:
+                parts = st.test.values if isinstance(st.test, pyast.BoolOp) and isinstance(st.test.op, pyast.And) else [st.test]
+                texts = [pyast.unparse(x) for x in parts]
+                ok_tests = {"'locked' in str(%s)" % name, "%s.sqlite_errorcode == sqlite3.SQLITE_BUSY" % name,
+                            "sqlite3.SQLITE_BUSY == %s.sqlite_errorcode" % name}
+                allowed = ok_tests | {"isinstance(%s, sqlite3.OperationalError)" % name}
+                if any(t in ok_tests for t in texts) and all(t in allowed for t in texts):
+                    return True
+        return False
+
     def sets_reg(self, node):
         for n in pyast.walk(node):
             if isinstance(n, pyast.Assign) and len(n.targets) == 1 and isinstance(n.targets[0], pyast.Name) \
@@ -233,7 +274,7 @@ def probe_program(repo):
     src = open(os.path.join(repo, "src/pymoca/parser.py")).read()
     p = Probe(src)
     prog = p.block(p.funcs["parse"].body)
-    return prog, p.connect_kw
+    return prog, p.connect_kw, p
 
 
 # ---------------------------------------------------------------------------------------------------
@@ -246,17 +287,56 @@ def db0(kind, pre):
     if kind == "fresh":
         return "(Some empty_db)"
     if kind == "existing":
-        return "(Some (Db TGood TGood true %s))" % cq_list(["(%s, %s)" % (cq_nat(t), cq_nat(a)) for t, a in pre])
-    if kind == "wrong":
+        return "(Some (Db TGood TGood true %s))" % cq_list(["(%s, %s)" % (cq_nat(x[0]), cq_nat(x[1])) for x in pre])
+    if kind in ("wrong", "wrongpk"):
         return "(Some (Db TWrong TMissing false []))"
     if kind == "wrongmeta":
         return "(Some (Db TGood TWrong false []))"
     return "None"
 
 
-def sched_case(kind, calls, schedule, pre=()):
+def sched_case(kind, calls, schedule, pre=(), shared=False):
     return {"mode": "sched", "kind": kind, "texts": [t for t, _ in TEXTS], "pre": list(pre),
-            "calls": calls, "schedule": list(schedule)}
+            "calls": calls, "schedule": list(schedule), "shared": shared}
+
+
+def shared_cases(rng=None, n=0):
+    """threads of ONE process (same key in parse.initialized_dbs, nothing initialised yet) on a database whose
+    `models` table has an older layout that still answers the lookup and holds, under the text's key, ANOTHER
+    model's tree; call 1's lookup is interleaved into call 0's start-up.  Oracle only (the model treats calls as
+    processes)."""
+    cs = []
+    for k in (1, 2, 3, 5, 6, 8):
+        cs.append(sched_case("wrongpk", [call(0), call(0)], [0] * k + [1] * 8, pre=[[0, 0, 1]], shared=True))
+    cs.append(sched_case("wrongpk", [call(0), call(1), call(0)], [0, 0, 0, 1, 1, 1, 1, 1, 1, 2, 2, 2, 2, 2, 2],
+                         pre=[[0, 0, 2], [1, 0, 2]], shared=True))
+    cs.append(sched_case("fresh", [call(0), call(0), call(1)], [0, 0, 1, 1, 1, 1, 2, 2, 0, 0, 0], shared=True))
+    for _ in range(n):
+        m = rng.choice([2, 3])
+        sched = []
+        for _i in range(rng.randint(3, 8)):
+            sched += [rng.randrange(m)] * rng.randint(1, 6)
+        cs.append(sched_case(rng.choice(["wrongpk", "wrongpk", "wrong", "fresh"]),
+                             [call(rng.choice([0, 0, 1])) for _i in range(m)], sched,
+                             pre=[[0, 0, 1], [1, 0, 2]], shared=True))
+    for c in cs:
+        if c["kind"] != "wrongpk":
+            c["pre"] = []
+    return cs
+
+
+def timeout_cases():
+    """the 'pending writer': C holds SHARED between its lookup and the commit, A sits in COMMIT with PENDING,
+    the late starter B cannot get SHARED for its integrity check and ITS busy timeout expires (entry 100 + call)"""
+    cs = []
+    C, A, B = 0, 1, 2
+    for pre in ([[0, 0]], [[0, 40]]):
+        cs.append(sched_case("existing", [call(0, init=False), call(1, init=False), call(2)],
+                             [C] * 3 + [A] * 7 + [B, 100 + B] + [B] * 4 + [C] * 3 + [A] * 3, pre=pre))
+    # the same with the time-out hitting an ordinary statement (B already initialised: its lookup)
+    cs.append(sched_case("existing", [call(0, init=False), call(1, init=False), call(2, init=False)],
+                         [C] * 3 + [A] * 7 + [B, B, 100 + B] + [C] * 3 + [A] * 3, pre=[[0, 0]]))
+    return cs
 
 
 def call(text, init=True, upd=False, exp=30):
@@ -269,6 +349,8 @@ def directed():
     for kind in KINDS:
         for ti in (0, 3):
             cs.append(sched_case(kind, [call(ti)], []))
+    cs.append(sched_case("wrongpk", [call(0)], [], pre=[[0, 0, 1]]))
+    cs.append(sched_case("wrongpk", [call(0), call(0)], [0, 1] * 6, pre=[[0, 0, 1]]))
     cs.append(sched_case("existing", [call(0)], [], pre=[[0, 0]]))                 # hit
     cs.append(sched_case("existing", [call(0, upd=True)], [], pre=[[0, 0]]))       # hit + last_hit update
     cs.append(sched_case("existing", [call(1, init=False)], [], pre=[[0, 0]]))     # already initialised, miss
@@ -338,7 +420,12 @@ def judge_sched(c, r):
         return "calls did not terminate (deadlock or livelock under the drained schedule)"
     # statement-level observable: parse() absorbs sqlite3.DatabaseError (uncached fall-back, a7369f2), so a lock
     # error no longer reaches the caller - the proxied sqlite3 inside pymoca.parser still sees it
+    timed_out = {o[0] for o in r["trace"] if o[2] == "timeout"}      # injected by the schedule (100 + call)
+    if c["kind"] != "corrupt" and r.get("inode_kept") is False:
+        return "the database file was replaced or removed (inode changed)"
     for o in r["trace"]:
+        if o[0] in timed_out and o[2] in ("timeout", "fail"):
+            continue
         if o[2] in ("busy", "err") or (o[2] == "fail" and c["kind"] != "corrupt"):
             return "call %d: statement %s inside parse() raised (%s)%s" % (
                 o[0], o[1], "database is locked, at once" if o[2] == "busy" else o[2],
@@ -356,8 +443,12 @@ def judge_sched(c, r):
     # rows: every successfully parsed text and every pre-populated entry, except that an entry older than the
     # shortest expiration of an initialising (= pruning) call may legitimately be gone
     exps = [cl.get("exp", 30) for cl in c["calls"] if cl["init"]]
-    prunable = {t for t, a in c["pre"] if exps and a > min(exps)}
-    allrows = {cl["text"] for cl in c["calls"] if TEXTS[cl["text"]][1]} | {t for t, _a in c["pre"]}
+    old = c["kind"] == "wrongpk"            # rows under the old layout go away with the table
+    prunable = {x[0] for x in c["pre"] if old or (exps and x[1] > min(exps))}
+    # a timed-out call falls back to an uncached parse: its own text need not be cached (unless another call has it)
+    prunable |= ({c["calls"][i]["text"] for i in timed_out} -
+                 {cl["text"] for i, cl in enumerate(c["calls"]) if i not in timed_out} - {x[0] for x in c["pre"]})
+    allrows = {cl["text"] for cl in c["calls"] if TEXTS[cl["text"]][1]} | {x[0] for x in c["pre"]}
     if not (allrows - prunable <= set(f["rows"]) <= allrows):
         return "cache rows afterwards %s, expected %s minus possibly %s (cache not used or entries lost)" % (
             f["rows"], sorted(allrows), sorted(prunable))
@@ -412,11 +503,11 @@ def tag_of(c, r=None):
 KIND = {"connect": "KConnect", "integrity": "KIntegrity", "remove": "KRemove", "begin_d": "KBeginD",
         "begin_i": "KBeginI", "read": "KRead", "write": "KWrite", "commit": "KCommit", "close": "KClose",
         "none": "KNone"}
-OUT = {"done": "ODone", "blocked": "OBlocked", "busy": "OBusy", "fail": "OFail", "err": "OErr", "viol": "OViol",
+OUT = {"timeout": "OTimeout", "done": "ODone", "blocked": "OBlocked", "busy": "OBusy", "fail": "OFail", "err": "OErr", "viol": "OViol",
        "idle": "OIdle"}
 
 
-def encode_sched(c, r, progname):
+def encode_sched(c, r, progname, guard=True):
     pars = cq_list(["Par %s %s %s %s %s" % (cq_nat(cl["text"]), cq_bool(cl["init"]), cq_bool(cl["upd"]),
                                             cq_bool(TEXTS[cl["text"]][1]), cq_nat(cl.get("exp", 30)))
                     for cl in c["calls"]])
@@ -425,7 +516,7 @@ def encode_sched(c, r, progname):
     for i, res in enumerate(r["results"]):
         # status of the call INSIDE parse() (the fall-back wrapper hides DatabaseErrors from the caller)
         outs = [o[2] for o in r["trace"] if o[0] == i]
-        if "busy" in outs:
+        if "busy" in outs or any(o[0] == i and o[2] == "timeout" and o[1] != "integrity" for o in r["trace"]):
             st.append(2)
         elif "err" in outs or (res is not None and res[0] != "ok"):
             st.append(3)
@@ -433,8 +524,8 @@ def encode_sched(c, r, progname):
             st.append(0)
         else:
             st.append(1)
-    return "(%s, %s, %s, %s, %s, %s, %s)" % (
-        progname, db0(c["kind"], c["pre"]), pars, cq_list([cq_nat(x) for x in r["effective"]]), obs,
+    return "(%s, %s, %s, %s, %s, %s, %s, %s)" % (
+        progname, cq_bool(guard), db0(c["kind"], c["pre"]), pars, cq_list([cq_nat(x) for x in r["effective"]]), obs,
         cq_list([cq_nat(x) for x in st]), cq_list([cq_nat(x) for x in r["final"]["rows"]]))
 
 
@@ -491,8 +582,14 @@ def run(ctx):
 
     # ---- S1: regenerate the skeleton, tie the side condition ----
     progname = "prog_head"
+    guard = True
     try:
-        prog, kws = probe_program(core.REPO)
+        prog, kws, pr = probe_program(core.REPO)
+        guard = bool(pr.busy_guard)
+        ctx.oblige("tie:integrity handler re-raises a busy error ('locked' / SQLITE_BUSY) before os.remove",
+                   pr.busy_guard is True, "busy_guard=%r" % pr.busy_guard)
+        ctx.oblige("tie:database marked initialised only after the start-up checks", pr.mark_ok is True,
+                   "mark_ok=%r" % pr.mark_ok)
         gen = (core.HEADER + "From Coq Require Import List Bool Arith.\nImport ListNotations.\n"
                "From PV Require Import Lib.Lock Model.C02_conc.\n"
                "Definition gen_prog : prog := %s.\n"
@@ -524,17 +621,18 @@ def run(ctx):
 
     tm["tie"] = round(time.time() - t0, 1)
     # ---- S3: cases ----
-    n_rand = ctx.scaled(45, 1000)
+    n_rand = ctx.scaled(35, 1000)
     dcs = directed()
     rcs = [random_case(ctx.rng) for _ in range(n_rand)]
-    ccs = corrupt_cases()
+    ccs = corrupt_cases() + timeout_cases()
+    shs = shared_cases(ctx.rng, ctx.scaled(4, 100))
     stress = []
     for i in range(ctx.scaled(3, 30)):
         stress.append(stress_case(ctx.rng, ctx.scaled(8, 16), True, ctx.rng.choice(["fresh", "fresh", "wrong"])))
     for i in range(ctx.scaled(2, 10)):
         stress.append(stress_case(ctx.rng, ctx.scaled(6, 12), False, "fresh"))
     lt = [{"mode": "locktable"}]
-    sched_cases = dcs + rcs + ccs
+    sched_cases = dcs + rcs + ccs + shs
     results = run_children(ctx, sched_cases + lt, workers=4)
     lt_res = results[-1]
     sres = results[:-1]
@@ -564,16 +662,17 @@ def run(ctx):
             core.report(ctx, tag_of(c, r), why, {"input": c, "observed": r.get("final"), "calls": r.get("results")})
 
     # (b) correspondence (i)+(iii): model run on the effective schedule vs the observed attempts
-    idx = [i for i, r in enumerate(sres) if "trace" in r]
-    enc = [encode_sched(sched_cases[i], sres[i], progname) for i in idx]
+    idx = [i for i, r in enumerate(sres) if "trace" in r and not sched_cases[i].get("shared")]
+    n_shared = sum(1 for c in sched_cases if c.get("shared"))
+    enc = [encode_sched(sched_cases[i], sres[i], progname, guard) for i in idx]
     pre = "From Coq Require Import Bool Arith.\nImport ListNotations.\nFrom PV Require Import Lib.Lock Model.C02_conc.\n"
     if progname == "gen_prog":
         pre += "From Run%s Require Import Gen.\n" % ctx.pid
-    bad = core.coq_eval_cases(ctx, "sched", pre, "case", enc, "check_case", shard=60)
+    bad = core.coq_eval_cases(ctx, "sched", pre, "case", enc, "check_case", shard=40)
     mism = [idx[j] for j in (bad or [])]
-    ctx.oblige("correspondence:model-vs-parse()-per-attempt", bad == [] and len(idx) == len(sres),
-               "mismatching cases: %s; cases without trace: %d" % (mism[:10], len(sres) - len(idx)))
-    if (bad or len(idx) != len(sres)) and not [v for v in ctx.violations if not v["no_input"]]:
+    ctx.oblige("correspondence:model-vs-parse()-per-attempt", bad == [] and len(idx) + n_shared == len(sres),
+               "mismatching cases: %s; cases without trace: %d" % (mism[:10], len(sres) - len(idx) - n_shared))
+    if (bad or len(idx) + n_shared != len(sres)) and not [v for v in ctx.violations if not v["no_input"]]:
         j = mism[0] if mism else [i for i, r in enumerate(sres) if "trace" not in r][0]
         core.violation(ctx, "correspondence-broken", {"input": sched_cases[j], "observed": sres[j]}, no_input=True)
 
